@@ -2085,8 +2085,20 @@ class FnTrFull(FnTr, ExprMixin, CallMixin, StdMixin):
 # =====================================================================
 
 def _unit_get_info(self, fi):
+    if getattr(fi, 'failed', None):
+        raise ExtractionError(fi.failed)
     if fi.done or fi.in_progress:
         return fi
+    try:
+        return _unit_get_info_inner(self, fi)
+    except ExtractionError as e:
+        # remember the failure: every function that (transitively) calls this one is undecided as well
+        fi.in_progress = False
+        fi.failed = str(e)
+        raise
+
+
+def _unit_get_info_inner(self, fi):
     fi.in_progress = True
     tr = FnTrFull(self, fi, self.contracts.get(fi.cname))
     tr.setup()
